@@ -90,6 +90,24 @@ func TestVerifC12(t *testing.T) {
 		mod("identifier-twice", func(c *protocoltypes.Group) { c.PublicKey = append(append([]byte(nil), c.PublicKey...), c.PublicKey...) })
 		mod("secret+trailing-zero", func(c *protocoltypes.Group) { c.Secret = append(append([]byte(nil), c.Secret...), 0) })
 		mod("sig+trailing-zero", func(c *protocoltypes.Group) { c.SecretSig = append(append([]byte(nil), c.SecretSig...), 0) })
+		// a secret of the forger's choice "signed" by a key the forger holds: the signing key derived from that very secret
+		// (every holder of a secret can derive it), the forger's own key, the secret used as a seed
+		{
+			own2 := make([]byte, 32)
+			rng.Read(own2)
+			if ssk, err := (&protocoltypes.Group{Secret: own2}).GetSigningPrivKey(); err == nil {
+				if sig, err := ssk.Sign(own2); err == nil {
+					mod("own-secret-signed-by-the-key-derived-from-it", func(c *protocoltypes.Group) { c.Secret, c.SecretSig = own2, sig })
+				}
+			}
+			if ssk, err := g.GetSigningPrivKey(); err == nil {
+				if sig, err := ssk.Sign(own2); err == nil { // what any member of the genuine group could make
+					mod("own-secret-signed-by-the-group's-entry-signing-key", func(c *protocoltypes.Group) { c.Secret, c.SecretSig = own2, sig })
+				}
+			}
+			fsk := ed25519.NewKeyFromSeed(own2)
+			mod("own-secret-signed-by-own-key", func(c *protocoltypes.Group) { c.Secret, c.SecretSig = own2, ed25519.Sign(fsk, own2) })
+		}
 		mod("add-sign-pub", func(c *protocoltypes.Group) { c.SignPub = other.PublicKey })
 		mod("add-link-key", func(c *protocoltypes.Group) { c.LinkKey = other.Secret })
 		// invitations forged by someone who only holds the public replication descriptor of the group (identifier, sign_pub,
